@@ -333,6 +333,8 @@ OBSERVED = f"imaginary part {{im}}: raised={{raised}}"
                              lambda: [0, 1, 2], _check_native,
                              "bounded: natively, per-term circuits equal scipy expm for all strings on <=2 qubits at sample t; sum structure equals the "
                              "concatenation of per-term circuits; derivative vs finite differences (n_steps 1..3)", exhaustive=False))
+    from vfw import lean
+    obs.append(lean.prelude_ob('C16', 'Euler / exp(-i theta), trigonometric rules'))
     return obs
 
 
